@@ -56,7 +56,7 @@ Lemma spec_error_frame c x o e l l' :
       \/ (pm m = None /\ prunes x = true /\ prune_reason c (op_now x) m).
 Proof.
   intros [pm [news [E [P N]]]]. exists pm. split.
-  - destruct N as [N | [N _]]; [subst news; rewrite app_nil_r in E; exact E | discriminate].
+  - destruct N as [N | [N _]]; [subst news; rewrite app_nil_r in E; exact E | apply enq_ok_res_ok in N; discriminate].
   - intros m Hm. specialize (P m Hm). destruct (pm m) as [m'|].
     + inversion P as [Es | Hr He Hp Es | | |]; subst; try (simpl in *; discriminate).
       * left. reflexivity.
@@ -75,7 +75,7 @@ Proof.
   - left. apply apply_pm_In in Hin. destruct Hin as [m [Hm Ep]]. exists m. split; [exact Hm|].
     specialize (P m Hm). rewrite Ep in P. split; [apply (change_same_imm c x r) | apply (change_edge c x r)]; exact P.
   - right. destruct N as [N | [Hok [ies [EA En]]]]; [subst; destruct Hin|].
-    split; [exact Hok|]. subst news. apply in_map_iff in Hin. destruct Hin as [p [Ep Hp]].
+    split; [apply (enq_ok_res_ok x); exact Hok|]. subst news. apply in_map_iff in Hin. destruct Hin as [p [Ep Hp]].
     exists ies, p. repeat split; auto.
 Qed.
 
